@@ -191,7 +191,8 @@ def random_schedule(rng, emphasis):
             hn += 1
             ty = rng.choice(["CON", "CON", "NON"])
             delay = rng.choice([0, 0, 30, EAD - 1, EAD + 1, 300, 2000])
-            outcome = rng.choice(["ok", "ok", "ok", "ok", "raise:NotFound", "raise:py:KeyError", "noresponse", "unencodable:payload"])
+            outcome = rng.choice(["ok", "ok", "ok", "ok", "raise:NotFound", "raise:py:KeyError", "noresponse", "unencodable:payload",
+                                  "code:134", "code:163", "code:65"])   # returned (not raised) 4.06 / 5.03 / 2.01: No-Response is per class
             nr = rng.choice([None, None, None, 26, 2, 8, 16, 0])
             handlers[str(hn)] = {"delay": delay, "outcome": outcome, "len": rng.choice([0, 5, 40])}
             tok = newtok()
@@ -304,6 +305,66 @@ def load_schedule(rng, nfill):
             "steps": steps, "triggers": [], "horizon": 400 * 1024}
 
 
+def noresponse_matrix_schedule(rng):
+    """RFC 7967 is a bit mask over response classes: every mask against a handler that *returns* a message of class
+    2, 4 or 5 (a raised error is rendered by the library, where the statement is silent), for CON and NON requests,
+    ready before and after EMPTY_ACK_DELAY.  One request per combination, a fresh peer message ID and token each."""
+    steps = []
+    handlers = {}
+    hn = 0
+    t = 0
+    mid = rng.randint(0, 60000)
+    masks = [0, 2, 8, 16, 10, 18, 24, 26, 1, 4]
+    for nr in masks:
+        for outcome in ("ok", "code:134", "code:163", "code:65", "code:128"):
+            for ty in ("CON", "NON"):
+                for delay in (0, EAD + 40):
+                    if rng.random() < 0.5:
+                        continue
+                    hn += 1
+                    handlers[str(hn)] = {"delay": delay, "outcome": outcome, "len": 5}
+                    t += rng.choice([3, 50, 400])
+                    mid = (mid + 1) & 0xFFFF
+                    steps.append({"at": t, "do": "rx", "r": 1 + hn % 2, "ty": ty, "code": rng.choice([1, 2, 3]), "mid": mid,
+                                  "tok": "c%03x" % hn, "path": ["h", str(hn)], "nr": nr})
+    # every separate confirmable response is acknowledged
+    trig = [{"on": {"tx": {"ty": "CON", "cls": "resp", "nth": n}}, "delay": 2, "rx": {"ty": "ACK", "code": 0, "mid": "same"}}
+            for n in range(1, hn + 2)]
+    return {"tuning": dict(REAL_TUNING), "mid0": rng.randint(0, 65535), "tok0": 9, "nremotes": 2,
+            "handlers": handlers, "steps": steps, "triggers": trig, "horizon": t + 400 * 1024}
+
+
+def error_between_copies_schedule(rng):
+    """Requests that have been answered completely (piggy-backed or NON, nothing left open), then a transport error
+    reported for the requester (ICMP unreachable: its socket is gone), then copies of the requests, all well inside
+    EXCHANGE_LIFETIME: what the endpoint remembers about processed requests does not depend on reported errors.
+    A second peer's requests and copies run alongside."""
+    steps = []
+    handlers = {}
+    t = 0
+    mid = rng.randint(0, 60000)
+    reqs = []
+    n = rng.randint(1, 4)
+    for i in range(1, n + 1):
+        handlers[str(i)] = {"delay": rng.choice([0, 0, 20]), "outcome": "ok", "len": rng.choice([0, 5, 40])}
+        t += rng.choice([1, 30, 300])
+        mid = (mid + 1) & 0xFFFF
+        req = {"at": t, "do": "rx", "r": rng.choice([1, 1, 2]), "ty": rng.choice(["CON", "NON"]), "code": rng.choice([1, 2, 3]),
+               "mid": mid, "tok": "e%03x" % i, "path": ["h", str(i)]}
+        steps.append(req)
+        reqs.append(req)
+    t += 200
+    for _ in range(rng.choice([1, 1, 2])):
+        t += rng.choice([1, 50, 2000])
+        steps.append({"at": t, "do": "err", "r": 1})
+    for req in reqs:
+        for _ in range(rng.choice([1, 1, 2])):
+            t += rng.choice([1, 40, 3000, 20000])
+            steps.append(dict(req, at=t))
+    return {"tuning": dict(REAL_TUNING), "mid0": rng.randint(0, 65535), "tok0": 9, "nremotes": 2,
+            "handlers": handlers, "steps": steps, "triggers": [], "horizon": 400 * 1024}
+
+
 def sig_of(clause, sched):
     shape = []
     for s in sched["steps"]:
@@ -357,6 +418,8 @@ def check(rep, args, prefix, emphasis):
                 model_scheds.append(res)
         rand_scheds = [random_schedule(rng, emphasis) for _ in range(nrand)]
         rand_scheds += [reject_schedule(rng) for _ in range(12 if quick else 120)]
+        rand_scheds += [noresponse_matrix_schedule(rng) for _ in range(2 if quick else 12)]
+        rand_scheds += [error_between_copies_schedule(rng) for _ in range(40 if quick else 400)]
         rand_scheds += [load_schedule(rng, 600)] + ([] if quick else [load_schedule(rng, 1100), load_schedule(rng, 2500)])
         all_scheds = [s for s, _ in model_scheds] + rand_scheds
         results = run_all(all_scheds)
